@@ -1,2 +1,314 @@
-/- C09 driver (stub until the model exists) -/
-def main : IO Unit := pure ()
+/- C09 driver: trace acceptor. Input per case: op lines, then the implementation's output lines
+prefixed "T ", then "end".  The expected records are computed with the model (formatText /
+putsText / clampLevel / filter / render / file-sink rollover rule); the implementation's global
+record order (sink 0, unfiltered) must be an interleaving of the per-thread expected sequences
+(exactly once, whole, in per-thread order); every other sink must show exactly the filtered
+global order; file sinks must hold exactly the expected records, whole, in order, across the
+files in creation order, every file but the last at or above the size limit.
+Prints `ok …` or `reject <reason>`; `B` lines carry branch tags. -/
+import TboxModel.Util
+import TboxModel.C09.Model
+open Tbox.Util Tbox.C09
+
+/-- deterministic message body shared with the harness -/
+def genText (len seed : Nat) : Bytes :=
+  (List.range len).map fun i => (48 + ((seed + i * 7 + (i / 64) * 13 + (i * i % 11)) % 75)).toUInt8
+
+def fnv (bs : Bytes) : Nat :=
+  (bs.foldl (fun (h : UInt32) b => (h ^^^ b.toUInt32) * 16777619) (2166136261 : UInt32)).toNat
+
+def asciiBytes (s : String) : Bytes := s.toUTF8.toList
+
+def basename (s : String) : String := (s.splitOn "/").getLast!
+
+structure Msg where
+  t : Nat
+  level : Int
+  mod : Option String
+  func : Option String
+  file : Option String
+  line : Int
+  kind : Char
+  len : Nat
+  seed : Nat
+
+structure ERec where
+  ttag : Nat
+  lvl : Nat
+  mod : String
+  func : Option String
+  file : Option String
+  line : Int
+  text : Bytes
+  tr : Bool
+  tags : List String
+
+def optS (o : Option String) : String := o.getD "-"
+
+def ERec.fields (e : ERec) : String :=
+  s!"{e.mod} {optS e.func} {optS e.file} {e.line} {e.text.length} {fnv e.text} {if e.tr then 1 else 0}"
+def ERec.rline (e : ERec) : String := s!"{e.ttag} {e.lvl} {e.fields}"
+/-- what a rendered line shows: the line number is printed only together with a file name -/
+def ERec.lline (e : ERec) : String :=
+  let e' := if e.file.isNone then { e with line := 0 } else e
+  s!"{e.ttag} {Char.ofNat (levelCode e.lvl).toNat} {e'.fields} 1"
+
+def ERec.toRec (e : ERec) : Rec :=
+  { level := e.lvl, ts := List.replicate 26 84, tid := asciiBytes (toString e.ttag), module := asciiBytes e.mod,
+    func := e.func.map asciiBytes, text := e.text, trunc := e.tr, file := e.file.map asciiBytes,
+    line := asciiBytes (toString e.line) }
+
+def nameOk (s : String) : Bool :=
+  s.length ≥ 1 && s.length ≤ 64 && s.all fun c => c.isAlphanum || c == '_' || c == '.'
+def pathOk (s : String) : Bool :=
+  s.length ≥ 1 && s.length ≤ 64 && !s.endsWith "/" && s.all fun c => c.isAlphanum || c == '_' || c == '.' || c == '/'
+
+def parseMsg (T : Nat) (w : String) : Option Msg :=
+  match w.splitOn ":" with
+  | [t, lv, md, fn, fl, ln, kd, len, seed] => do
+    let t ← t.toNat?; let lv ← intOfString? lv; let ln ← intOfString? ln
+    let len ← len.toNat?; let seed ← seed.toNat?
+    if t ≥ T || len > 200000 || seed > 1000000 || ln.natAbs > 1000000000 || lv.natAbs > 1000 then none else
+    let kd ← (match kd.toList with | [c] => if c == 'p' || c == 's' || c == 'n' || c == 'f' then some c else none | _ => none)
+    let md ← (if md == "-" then some none else if nameOk md then some (some md) else none)
+    let fn ← (if fn == "-" then some none else if nameOk fn then some (some fn) else none)
+    let fl ← (if fl == "-" then some none else if pathOk fl then some (some fl) else none)
+    pure { t := t, level := lv, mod := md, func := fn, file := fl, line := ln, kind := kd, len := len, seed := seed }
+  | _ => none
+
+/-- the record LogPrintfFunc dispatches for a message (model parts a, clamp, Basename) -/
+def expectRec (max : Nat) (ttag : Nat) (m : Msg) : ERec :=
+  let body := genText m.len m.seed
+  let (text, tr, tags) : Bytes × Bool × List String :=
+    match m.kind with
+    | 'n' => ([], false, ["fmt-null"])
+    | 's' => let r := putsText body max; (r.1, r.2, [if r.2 then "puts-trunc" else "puts-fit"])
+    | k =>
+      let msg := if k == 'f' then asciiBytes (toString m.seed) ++ [124] ++ body else body
+      match formatText msg max with
+      | some (t, tr, rounds) =>
+        (t, tr, [if tr then "fmt-trunc" else if rounds == 1 then "fmt-stack" else "fmt-exact"]
+          ++ (if msg.length + 1 ≥ 2048 && msg.length ≤ 2050 then ["edge2048"] else [])
+          ++ (if msg.length + 1 ≥ max && msg.length ≤ max + 1 then ["edge-max"] else []))
+      | none => ([], false, ["fmt-diverged"])
+  { ttag := ttag, lvl := clampLevel m.level, mod := m.mod.getD "???", func := m.func, file := m.file.map basename,
+    line := m.line, text := text, tr := tr,
+    tags := tags ++ (if m.level < 0 || m.level ≥ 8 then ["clamp"] else []) ++ (if max == 0 then ["max0"] else []) }
+
+inductive SKind where | mem | file
+  deriving BEq
+
+structure SinkSt where
+  kind : SKind
+  enabled : Bool := true
+  cfg : FilterCfg := {}
+  fmax : Nat := 0
+  pending : Array ERec := #[]       -- file sink: everything dispatched to it so far
+
+instance : Inhabited SinkSt := ⟨{ kind := .mem }⟩
+
+structure TA where
+  max : Nat := 102400
+  sinks : Array SinkSt := #[]       -- sink k ≥ 1 is sinks[k-1]
+  runIdx : Nat := 0
+  tl : List String := []
+  tags : List String := []
+  err : Option String := none
+  nops : Nat := 0
+  nrec : Nat := 0
+
+def TA.fail (a : TA) (msg : String) : TA := { a with err := some s!"op#{a.nops} {msg}" }
+
+def expectLine (a : TA) (want : String) (what : String) : TA :=
+  match a.tl with
+  | l :: rest => if l == want then { a with tl := rest }
+                 else a.fail s!"{what}: impl=[{l.take 160}] model=[{want.take 160}]"
+  | [] => a.fail s!"{what}: impl=<missing> model=[{want.take 160}]"
+
+def takeWhilePrefix (p : String) (l : List String) : List String × List String :=
+  l.span (·.startsWith p)
+
+def sinkOf (a : TA) (k : String) : Option (Nat × SinkSt) := do
+  let k ← k.toNat?
+  if k = 0 then none else
+  let s ← a.sinks[k - 1]?
+  pure (k, s)
+
+def passes (s : SinkSt) (e : ERec) : Bool := s.enabled && filter s.cfg (Int.ofNat e.lvl) e.mod
+
+/-- validate the global order of one run against the per-thread expectations -/
+def matchGlobal (queues : Array (List ERec)) (base : Nat) (obs : List String) : Except String (List ERec) := do
+  let mut q := queues
+  let mut out : Array ERec := #[]
+  for l in obs do
+    let ttag := ((l.splitOn " ").headD "").toNat?.getD 1000000
+    if ttag < base || ttag - base ≥ q.size then throw s!"record of an unknown thread: [{l.take 160}]"
+    match q[ttag - base]! with
+    | [] => throw s!"thread {ttag}: record delivered although all its records were already seen (DUPLICATE or corrupt): [{l.take 160}]"
+    | e :: rest =>
+      if e.rline != l then
+        let later := rest.any (·.rline == l)
+        throw (s!"thread {ttag}: " ++ (if later then "record OUT OF ORDER or an earlier one LOST" else "record CORRUPT") ++
+               s!": impl=[{l.take 160}] model=[{e.rline.take 160}]")
+      q := q.set! (ttag - base) rest
+      out := out.push e
+  for i in [0:q.size] do
+    match q[i]! with
+    | e :: _ => throw s!"thread {base + i}: record LOST: [{e.rline.take 160}]"
+    | [] => pure ()
+  return out.toList
+
+def hexMasked (e : ERec) : String := hexOfBytes (render e.toRec)
+
+def stepOp (a : TA) (line : String) : TA :=
+  if a.err.isSome then a else
+  let a := { a with nops := a.nops + 1 }
+  match words line with
+  | ["max", n] =>
+    match n.toNat? with
+    | some n => if n ≤ 200000 then expectLine { a with max := n } "P max" "max" else expectLine a "bad-op" "malformed op"
+    | none => expectLine a "bad-op" "malformed op"
+  | ["sink", "rec"] =>
+    let a := { a with sinks := a.sinks.push { kind := .mem } }
+    expectLine a s!"P sink {a.sinks.size} rec" "sink"
+  | ["sink", "file", fmax, bsz, bmin, bmax, ival] =>
+    match fmax.toNat?, bsz.toNat?, bmin.toNat?, bmax.toNat?, ival.toNat? with
+    | some fmax, some bsz, some bmin, some bmax, some ival =>
+      if bsz = 0 || bmin = 0 || bmin > bmax || ival = 0 || bsz > 1000000 || bmax > 64 || ival > 1000 || a.sinks.size ≥ 6 then
+        expectLine a "bad-op" "malformed op"
+      else
+        let a := { a with sinks := a.sinks.push { kind := .file, fmax := fmax } }
+        expectLine a s!"P sink {a.sinks.size} file" "sink"
+    | _, _, _, _, _ => expectLine a "bad-op" "malformed op"
+  | ["lvl", k, md, lv] =>
+    match sinkOf a k, intOfString? lv with
+    | some (k, s), some lv =>
+      if md == "*" then
+        expectLine { a with sinks := a.sinks.set! (k - 1) { s with cfg := s.cfg.setDefault lv }, tags := a.tags ++ ["lvl-default"] } "P lvl" "lvl"
+      else if nameOk md then
+        expectLine { a with sinks := a.sinks.set! (k - 1) { s with cfg := s.cfg.setModule md lv }, tags := a.tags ++ ["lvl-module"] } "P lvl" "lvl"
+      else expectLine a "bad-op" "malformed op"
+    | _, _ => expectLine a "bad-op" "malformed op"
+  | ["unset", k, md] =>
+    match sinkOf a k with
+    | some (k, s) =>
+      if nameOk md then
+        expectLine { a with sinks := a.sinks.set! (k - 1) { s with cfg := s.cfg.unset md }, tags := a.tags ++ ["unset"] } "P unset" "unset"
+      else expectLine a "bad-op" "malformed op"
+    | none => expectLine a "bad-op" "malformed op"
+  | ["on", k] =>
+    match sinkOf a k with
+    | some (k, s) =>
+      expectLine { a with sinks := a.sinks.set! (k - 1) { s with enabled := true }, tags := a.tags ++ (if s.enabled then [] else ["re-enable"]) }
+        s!"P on {k} {if s.enabled then 0 else 1}" "on"
+    | none => expectLine a "bad-op" "malformed op"
+  | ["off", k] =>
+    match sinkOf a k with
+    | none => expectLine a "bad-op" "malformed op"
+    | some (k, s) =>
+      let a := { a with sinks := a.sinks.set! (k - 1) { s with enabled := false } }
+      if s.kind == .mem then expectLine a s!"P off {k}" "off" else
+      -- directory listing: F <k> <i> <size>, then per line L/W (or X for damage), then P off k files=n
+      let (lst, rest) := a.tl.span (fun l => l.startsWith "F " || l.startsWith "L " || l.startsWith "W " || l.startsWith "X ")
+      let a := { a with tl := rest }
+      match lst.find? (·.startsWith "X ") with
+      | some x => a.fail s!"file sink {k}: damaged / partial / unparsable record in a log file (record SPLIT or corrupt): [{x.take 200}]"
+      | none =>
+        let fl := lst.filter (·.startsWith "F ")
+        let ll := lst.filter (·.startsWith "L ")
+        let wl := lst.filter (·.startsWith "W ")
+        let sizes := fl.map fun l => ((words l).getD 3 "").toNat?.getD 0
+        let adjs := fl.map fun l => ((words l).getD 4 "").toNat?.getD 0
+        let n := fl.length
+        -- (1) the records, in file creation order, are exactly the expected ones
+        let obs := ll.map fun l => " ".intercalate ((words l).drop 3)
+        let want := s.pending.toList.map (·.lline)
+        if obs != want then
+          let i := ((obs.zip want).takeWhile (fun p => p.1 == p.2)).length
+          a.fail (s!"file sink {k}: record #{i} of {want.length} (in file creation order) differs — LOST, DUPLICATED, reordered or damaged: " ++
+                  s!"impl=[{(obs.getD i "<missing>").take 160}] model=[{(want.getD i "<missing>").take 160}]")
+        else
+        -- (2) byte-exact rendering of the short records
+        let wantW := (s.pending.toList.filter (fun e => (render e.toRec).length ≤ 200)).map hexMasked
+        let obsW := wl.map fun l => (words l).getD 3 ""
+        if obsW != wantW then
+          let i := ((obsW.zip wantW).takeWhile (fun p => p.1 == p.2)).length
+          a.fail s!"file sink {k}: rendered bytes of short record #{i} differ: impl=[{obsW.getD i "<missing>"}] model=[{wantW.getD i "<missing>"}]"
+        else
+        -- (3) rollover rule: every file but the last reached the limit; no empty file; files only if records
+        if sizes.any (· == 0) then a.fail s!"file sink {k}: an empty log file exists" else
+        if (sizes.dropLast).any (· < s.fmax) then
+          a.fail s!"file sink {k}: a file was rolled over below the limit {s.fmax}: sizes={sizes}" else
+        if want.isEmpty != (n == 0) then a.fail s!"file sink {k}: {n} files for {want.length} records" else
+        let totalWant := (s.pending.toList.map fun e => (render e.toRec).length).foldl (· + ·) 0
+        if adjs.foldl (· + ·) 0 != totalWant then
+          a.fail s!"file sink {k}: total size {adjs.foldl (· + ·) 0} (thread ids normalised) differs from the rendered records' {totalWant}" else
+        let tags := (if n ≥ 2 then ["rollover"] else []) ++ (if n ≥ 1 then ["file-nonempty"] else ["file-empty"])
+          ++ (if s.pending.any (fun e => (render e.toRec).length > s.fmax) then ["limit<record"] else [])
+        expectLine { a with tags := a.tags ++ tags } s!"P off {k} files={n}" "off"
+  | "run" :: tw :: specs =>
+    match tw.toNat? with
+    | none => expectLine a "bad-op" "malformed op"
+    | some T =>
+      if T = 0 || T > 8 || specs.length > 400 then expectLine a "bad-op" "malformed op" else
+      match specs.mapM (parseMsg T) with
+      | none => expectLine a "bad-op" "malformed op"
+      | some msgs =>
+        let base := a.runIdx * 8
+        let queues : Array (List ERec) := (Array.range T).map fun t =>
+          (msgs.filter (·.t == t)).map (expectRec a.max (base + t))
+        let (rl, rest) := a.tl.span (·.startsWith "R ")
+        let a := { a with tl := rest, runIdx := a.runIdx + 1 }
+        let ofSink (k : Nat) : List String :=
+          (rl.filter fun l => (words l).getD 1 "" == toString k).map fun l => " ".intercalate ((words l).drop 2)
+        match matchGlobal queues base (ofSink 0) with
+        | .error e => a.fail ("global order (unfiltered channel): " ++ e)
+        | .ok G => Id.run do
+          let active := (queues.toList.filter (!·.isEmpty)).length
+          let recTags := (G.map (·.tags)).flatten.eraseDups
+          let switches := ((G.zip (G.drop 1)).filter fun p => p.1.ttag != p.2.ttag).length
+          let newTags := a.tags ++ recTags ++ (if active ≥ 2 then ["threads>=2"] else ["threads1"])
+                                 ++ (if switches ≥ active && active ≥ 2 then ["interleaved"] else [])
+          let mut a := { a with nrec := a.nrec + G.length, tags := newTags }
+          for i in [0:a.sinks.size] do
+            if a.err.isSome then break
+            let s := a.sinks[i]!
+            let sel := G.filter (passes s)
+            if s.enabled && sel.length < G.length then a := { a with tags := a.tags ++ ["filter-drop"] }
+            if s.enabled && !sel.isEmpty then a := { a with tags := a.tags ++ ["filter-pass"] }
+            match s.kind with
+            | .mem =>
+              let obs := ofSink (i + 1)
+              let want := sel.map (·.rline)
+              if obs != want then
+                let j := ((obs.zip want).takeWhile (fun p => p.1 == p.2)).length
+                a := a.fail (s!"sink {i + 1}: record #{j} differs from the filtered global order (a call that passes must produce exactly one record, " ++
+                             s!"one that does not none): impl=[{(obs.getD j "<missing>").take 160}] model=[{(want.getD j "<missing>").take 160}]")
+            | .file =>
+              a := { a with sinks := a.sinks.set! i { s with pending := s.pending ++ sel.toArray } }
+          return (if a.err.isSome then a else expectLine a s!"P run {G.length}" "run")
+  | _ => expectLine a "bad-op" "malformed op"
+
+structure DS where
+  ops : Array String := #[]
+  tl : Array String := #[]
+
+def finish (d : DS) : List String :=
+  let a : TA := d.ops.foldl stepOp ({ tl := d.tl.toList } : TA)
+  let tagsLine := if a.tags.isEmpty then [] else ["B " ++ " ".intercalate a.tags.eraseDups]
+  match a.err with
+  | some e => tagsLine ++ ["reject " ++ e]
+  | none =>
+    match a.tl with
+    | [] => tagsLine ++ [s!"ok ops={a.nops} records={a.nrec}"]
+    | l :: _ => tagsLine ++ ["reject unexpected extra implementation output: [" ++ (l.take 200).toString ++ "]"]
+
+def stepLine (d : DS) (line : String) : DS × List String :=
+  let t := line.trimAscii.toString
+  if t.isEmpty then (d, [])
+  else if t.startsWith "case " then ({}, [t])
+  else if t == "end" then ({}, finish d)
+  else if t.startsWith "T " then ({ d with tl := d.tl.push (t.drop 2).toString }, [])
+  else ({ d with ops := d.ops.push t }, [])
+
+def main : IO Unit := runDriver ({} : DS) stepLine
